@@ -8,7 +8,7 @@ def check(tier, seed):
     return G.generic_check(PID, "fault_enumeration", tier, seed, coq=False,
         rule='a cache file is written by a real build, then every prefix of it (thorough: every byte; quick: every 5th byte), 24 bit-flipped variants and a garbage file are put in its place and Initialize is run twice in one process under a 30 s watchdog; the result must equal the book built from the source (bit-flipped but still decodable caches are outside the property and only required to terminate); cache round trip; a case = one damaged cache state',
         streams=[dict(name="cache_faults", kind="monitor", shards=lambda t: 1 if t == "quick" else 4,
-                      args=lambda t, s, sh, path: ["c20-monitor", 1 if q else 3, s * 1000 + sh, 5 if q else 1], timeout=3000)])
+                      args=lambda t, s, sh, path: ["c20-monitor", 1 if t == "quick" else 3, s * 1000 + sh, 5 if t == "quick" else 1], timeout=3000)])
 
 
 def replay(path):
